@@ -234,3 +234,47 @@ def shrink(prog, still_fails, budget=400):
                 improved = True
                 break
     return prog
+
+
+# ------------------------------------------------------------------ earlier runs in the same process
+
+PRIOR_TEXT = '''\
+va = 'stale va'
+vb = 'stale vb'
+vc = 99
+vd = arrayNew('stale')
+w1 = 77
+it1 = 'stale it'
+ix1 = 55
+n = 1000
+m = 'stale m'
+c = true
+cnt = 500
+function fn0(p0):
+    return 'stale fn0'
+endfunction
+function fn1():
+    return 'stale fn1'
+endfunction
+function f1(x):
+    return 'stale f1'
+endfunction
+for itq, ixq in arrayNew(1, 2):
+    g0 = itq
+endfor
+'''
+
+
+def prior_runs():
+    """A history for every workload process: scripts executed earlier WITHOUT a globals object (options omitted, options without
+    'globals', globals None) that assign the very names the generated programs use. Nothing of it may be visible to later runs
+    that bring their own globals."""
+    bare_script = real_api()[0]
+    model = bare_script.parse_script(PRIOR_TEXT)
+    bare_script.execute_script(model)
+    bare_script.execute_script(model, {})
+    bare_script.execute_script(model, {'globals': None, 'maxStatements': 1000})
+    from bare_script.runtime import evaluate_expression
+    evaluate_expression({'function': {'name': 'max', 'args': [{'number': 1.0}, {'variable': 'va'}]}})
+    return 3
+
